@@ -107,7 +107,9 @@ def make_source(spec):
         return a.astype(spec.get("dtype", "float64"))
     if k == "labels":
         g = np.random.default_rng(81_000 + spec["id"])
-        return g.integers(0, spec["n"], size=tuple(spec["shape"])).astype(np.uint8)
+        lab = g.integers(0, spec["n"], size=tuple(spec["shape"])).astype(np.uint8)
+        lab.ravel()[: spec["n"]] = np.arange(spec["n"])  # every label present
+        return lab
     if k == "mask":
         g = np.random.default_rng(82_000 + spec["id"])
         return g.uniform(size=tuple(spec["shape"])) < 0.7
@@ -117,6 +119,24 @@ def make_source(spec):
         return darsia.make_coordinate(spec["vals"])
     if k == "slices":
         return tuple(slice(lo, hi) for lo, hi in spec["vals"])
+    if k == "object":
+        c = spec["cls"]
+        if c == "Resize":
+            return darsia.Resize(shape=tuple(spec["shape"]), interpolation=spec.get("interpolation"))
+        if c == "AxisReduction":
+            return darsia.AxisReduction(axis=spec["axis"], dim=3, mode=spec.get("mode", "average"))
+        if c == "Geometry":
+            return darsia.Geometry(space_dim=2, num_voxels=tuple(spec["shape"]), dimensions=[1.0, 2.0])
+        if c == "EMD":
+            return darsia.EMD()
+        if c == "HeterogeneousLinearModel":
+            g = np.random.default_rng(81_500 + spec["id"])
+            lab = g.integers(0, 3, size=tuple(spec["shape"])).astype(np.uint8)
+            lab.ravel()[:3] = [0, 1, 2]  # all three labels present
+            return darsia.HeterogeneousLinearModel(lab, scaling=[1.5, 0.5, 2.0], offset=[0.0, 0.1, 0.2])
+        if c == "ClipModel":
+            return darsia.ClipModel(**{"min value": 0.1, "max value": 0.9})
+        raise HarnessError(c)
     if k == "list":
         return list(spec["vals"])
     if k == "tuple":
@@ -346,7 +366,17 @@ def _ctor(pool, op):
     raise HarnessError(op["cls"])
 
 
+def _objcall(pool, op):
+    o = pool[op["obj"]]
+    if op["method"] == "integrate":
+        return o.integrate(pool[op["a"]])
+    if op.get("b"):
+        return o(pool[op["a"]], pool[op["b"]])
+    return o(pool[op["a"]])
+
+
 REGISTRY = {
+    "objcall": (_objcall, ("a", "b", "obj")),
     "add": (_arith("+"), ("a", "b")), "sub": (_arith("-"), ("a", "b")),
     "mul": (_arith("*"), ("a",)), "rmul": (_arith("r*"), ("a",)),
     "lt": (_arith("<"), ("a", "b")), "gt": (_arith(">"), ("a", "b")), "eq": (_arith("=="), ("a", "b")),
@@ -500,6 +530,15 @@ class C17Engine(Engine):
         sources["fs"] = {"kind": "image", "cls": fam_cls, "shape": base_shape, "dtype": fam_dtype, "series": cfg.randint(1, 3),
                          "time": cfg.choice(["date", "date", "time", "none"]), "id": r.randint(0, 9999),
                          "dims": [float(base_shape[0]), 2.0 * base_shape[1]], "early": True}
+        # long-lived helper objects shared by the program (their own caches may change; their arguments must not)
+        sources["o_resize"] = {"kind": "object", "cls": "Resize", "shape": [cfg.randint(2, 7), cfg.randint(2, 7)],
+                               "interpolation": cfg.choice([None, "inter_area", "inter_nearest"])}
+        sources["o_reduce"] = {"kind": "object", "cls": "AxisReduction", "axis": cfg.choice(["x", "y", "z", 0, 2]),
+                               "mode": cfg.choice(["average", "sum"])}
+        sources["o_geom"] = {"kind": "object", "cls": "Geometry", "shape": base_shape}
+        sources["o_emd"] = {"kind": "object", "cls": "EMD"}
+        sources["o_het"] = {"kind": "object", "cls": "HeterogeneousLinearModel", "shape": base_shape, "id": r.randint(0, 99)}
+        sources["o_clip"] = {"kind": "object", "cls": "ClipModel"}
         sources["pts"] = {"kind": "list", "vals": [[1, 2], [3, 1], [2, 4]]}
         sources["max_size"] = {"kind": "list", "vals": [6, 6]}
         sources["box"] = {"kind": "tuple", "vals": []}  # replaced at build time by a tuple of slices
@@ -511,7 +550,7 @@ class C17Engine(Engine):
         for n, sp in sources.items():
             if sp["kind"] == "image":
                 desc[n] = self._desc(sp)
-        nsteps = cfg.randint(2, 8)
+        nsteps = cfg.randint(2, 12 if tier == "thorough" else 8)
         program = []
         lists = {}
         for step in range(nsteps):
@@ -531,7 +570,7 @@ class C17Engine(Engine):
         fam = lambda d: is2d_scalar(d) and d["shape"] == base_shape and d.get("fam", True) and d["cls"] != "OpticalImage"  # noqa: E731
         kind = r.choice(["arith", "arith", "cmp", "copy", "astype", "img_as", "optical", "subregion", "time", "slice",
                          "reset_origin", "weight", "weight", "superpose", "stack", "stack", "resize", "resize", "refine",
-                         "reduce", "extrude", "like", "model", "geometry", "distance", "box", "patches", "ctor", "ctor"])
+                         "reduce", "extrude", "like", "model", "geometry", "distance", "box", "patches", "ctor", "ctor", "objcall", "objcall"])
         if kind == "arith":
             a = self._pick(r, desc, lambda d: d["t"] == "image")
             if a is None:
@@ -739,6 +778,31 @@ class C17Engine(Engine):
                     # iteration, where the library handles the failure and still returns a result)
                     op["fault"] = {"site": "amg-setup-post", "occurrence": r.randint(1, 2)}
             return op
+        if kind == "objcall":
+            which = r.choice(["o_resize", "o_reduce", "o_geom", "o_emd", "o_het", "o_clip", "o_resize", "o_geom"])
+            if which == "o_resize":
+                a = self._pick(r, desc, lambda d: d["dim"] == 2 and d["dtype"] in ("float32", "float64", "uint8"))
+                if a is None:
+                    return None
+                arg = r.choice([a, a, "arr2"])
+                if arg == "arr2":
+                    return {"op": "objcall", "obj": which, "method": "call", "a": arg, "out": None}
+                desc[out] = {**desc[a], "shape": None, "fam": False}
+                return {"op": "objcall", "obj": which, "method": "call", "a": arg, "out": out}
+            if which == "o_reduce":
+                a = self._pick(r, desc, lambda d: d["dim"] == 3 and d["dtype"] in ("float32", "float64"))
+                if a is None:
+                    return None
+                desc[out] = {**desc[a], "dim": 2, "shape": None, "fam": False}
+                return {"op": "objcall", "obj": which, "method": "call", "a": a, "out": out}
+            if which == "o_geom":
+                a = self._pick(r, desc, lambda d: d["dim"] == 2 and not d["chan"] and d["dtype"] in ("float32", "float64") and d["shape"] is not None)
+                if a is None:
+                    return None
+                return {"op": "objcall", "obj": which, "method": "integrate", "a": a, "out": None}
+            if which == "o_emd":
+                return {"op": "objcall", "obj": which, "method": "call", "a": "m0", "b": "m1", "out": None}
+            return {"op": "objcall", "obj": which, "method": "call", "a": r.choice(["arr2", self._pick(r, desc, fam) or "arr2"]) if which == "o_clip" else "arr2", "out": None}
         if kind == "box":
             if r.random() < 0.5:
                 return {"op": "bounding_box", "pts": "pts", "pad": r.randint(0, 2), "max": r.choice([None, "max_size"]), "out": None}
@@ -856,6 +920,9 @@ class C17Engine(Engine):
                         members = case["lists"][n]
                         if idx < len(members) and members[idx] in changed_names and path[path.index("]") + 1:]:
                             continue  # the member itself is reported; the list only aliases it
+                    if form == "objcall" and role == "obj":
+                        out.counters["probe:receiver-state-changed(" + op["obj"] + ")"] += 1
+                        continue  # the receiver of a method call may keep caches; its arguments and bystanders may not change
                     if form in RETURNS_SELF_RESET and role == "a" and path.startswith(".origin"):
                         out.counters["probe:documented-self-reset"] += 1
                         continue
@@ -920,6 +987,8 @@ class C17Engine(Engine):
             return "resize-" + op["via"]
         if f in ("mul", "rmul"):
             return f"{f}-{type(op['b']).__name__}"
+        if f == "objcall":
+            return f"objcall-{op['obj'][2:]}"
         return f
 
     @staticmethod
